@@ -179,6 +179,34 @@ func buildC10Pool(env *Env, r *Rand, n int) ([]poolProg, [][]int) {
 		}
 		add("book-"+strings.TrimSuffix(k, ".nas"), corpus[k])
 	}
+	// label names that contain one another, used in every position including inside brackets (where gosk resolves
+	// them wrongly but must do so the same way every time): anything that iterates over the symbol table shows here
+	for v := 0; v < 6; v++ {
+		var b bytes.Buffer
+		names := [][]string{{"tbl", "tbl2", "tbl2x"}, {"msg", "msg_end", "msg_e"}, {"L1", "L10", "L100"}, {"a", "aa", "aaa"}, {"x_", "x__", "x"}, {"n", "n1", "n12"}}[v]
+		if v%2 == 1 {
+			b.WriteString("[BITS 32]\n")
+		}
+		fmt.Fprintf(&b, "%s:\n%s:\n\tDB 1,2,3,4\n%s:\n\tDB \"hi\",0\n", names[0], names[1], names[2])
+		for k := 0; k < 8; k++ {
+			nm := names[r.Intn(3)]
+			switch r.Intn(6) {
+			case 0:
+				fmt.Fprintf(&b, "\tMOV AL,[%s]\n", nm)
+			case 1:
+				fmt.Fprintf(&b, "\tMOV [%s],BX\n", nm)
+			case 2:
+				fmt.Fprintf(&b, "\tCMP BYTE [%s],0\n", nm)
+			case 3:
+				fmt.Fprintf(&b, "\tMOV SI,%s\n", nm)
+			case 4:
+				fmt.Fprintf(&b, "\tDW %s,%s\n", nm, names[r.Intn(3)])
+			default:
+				fmt.Fprintf(&b, "\tJMP %s\n", nm)
+			}
+		}
+		add("nested-label-names", b.String())
+	}
 	n += len(pool)
 	for i := 0; len(pool) < n; i++ {
 		switch i % 8 {
